@@ -16,9 +16,9 @@ CHECKS = {
          "The escape-relevant body space is enumerated completely up to the stated length bound (and numerals from a per-dialect grammar), every literal is pushed through the real formatter in 4 positions x 4 quote styles x 2 line endings and decoded on both sides by the checker's own decoder; complete within the bound, silent beyond it."),
  "C05": ("exploration", "7 C05", "exhaustive small-scope enumeration of operator pairs x parenthesis positions x contexts x width classes; normal-form (tree shape) and re-parse oracle; H1 trace measures paths",
          "Every operator pair (all precedence levels, both associativities), every parenthesis position of the templates, 15 contexts, short/long operands and 4 width classes are enumerated completely at depth 2 (depth 3 over precedence-class representatives in the thorough tier); the hook trace shows that both the single-line and the hanging parenthesis rule were evaluated."),
- "C06": ("exploration", "7 C06", "byte comparison of format(format(p)) with format(p) over corpus grid + critical widths (pinned) and tame generated programs (seeded)",
+ "C06": ("exploration", "7 C06", "byte comparison of format(format(p)) with format(p) over corpus grid + critical widths, re-spaced canonical text, block-comment and empty-line enumerations, CRLF corpus, collapse templates (pinned) and tame generated programs (seeded)",
          "Second-pass equality checked on every evaluation; the unchanged tree is not idempotent at many narrow/critical widths (known findings keyed by statement hash), so the seeded part is restricted to the region where idempotence holds today (ordinary code, width >= 120) and the pinned part carries the regression power."),
- "C07": ("exploration", "7 C07", "catch_unwind + subprocess abort attribution + logical step (tick) budget + parser agreement over valid, extreme and destroyed inputs",
+ "C07": ("exploration", "7 C07", "catch_unwind + subprocess abort attribution + logical step (tick) budget and growth law over nesting-depth ramps + parser agreement over valid, extreme and destroyed inputs; every third evaluation repeated with OutputVerification::Full; Miri leg (thorough); release + debug-assertions profile",
          "Panics, aborts, step-budget overruns and accept/reject disagreement with the checker's parser are observed per evaluation; wall-clock is never a verdict."),
  "C08": ("exploration", "7 C08", "own model of the ignore directives (per block state) over statement inventories; ordered verbatim-slice search + differential run with defused directives",
          "Every model-ignored statement of pinned templates (14 statement kinds x directive forms x tails x neighbours x depth), of the repository's ignore inputs and of generated programs with inserted directives must reappear byte for byte, and unrelated statements must be formatted as without the directives."),
